@@ -222,7 +222,7 @@ def check_tracker(out, facts):
         out.fail('R11.3', 'decode_with_depth_limit [%s]' % cfg, 'blanket impl not found', '-')
     else:
         g = fl[0]
-        t, v, ev = wire.infer_decoder_fn(facts, g)
+        t, v, ev = wire.infer_decoder_fn(facts, g, roles={0: ('param', 'limit', 'u32'), 1: ('input',)})
         decs = [e for e in events(t) if e[0] == 'dec']
         ok = len(decs) == 1 and len(events(t)) == 1 and decs[0][3] == 'wrapped_input' and decs[0][1] in ('T', 'Self')
         if ok:
